@@ -33,6 +33,7 @@ Definition get_ok (s' : st) (e : event) : Prop :=
       if is_nil (sdt s') then x = lit_generic /\ (closed s' || canc s') = true
       else x = sdt s'
   | EvPanic => False
+  | EvHang => False
   | _ => True
   end.
 
@@ -148,10 +149,54 @@ Proof.
     destruct G as (W' & D & Gt & SN). cbn [dt_ok]. fold (dt_next (sdt (sh y)) (os_ev o)).
     rewrite <- D, SN. cbn [sn_dt sn_deps sn_canc snap_of]. rewrite bytes_eqb_refl. cbn [andb].
     rewrite (IH _ _ _ E' W'), andb_true_r.
-    unfold get_ok in Gt. destruct (os_ev o); try reflexivity; [|contradiction].
+    unfold get_ok in Gt. destruct (os_ev o); try reflexivity; try contradiction.
     destruct (is_nil (sdt (sh y'))).
     + destruct Gt as [Gx Gc]. subst. rewrite bytes_eqb_refl. cbn [andb]. exact Gc.
     + subst. apply bytes_eqb_refl.
+Qed.
+
+(* a poll that must return does return *)
+Ltac split_ifs :=
+  repeat match goal with
+         | |- context [match ?k with KTop => _ | KRF _ _ => _ end] => destruct k
+         | |- context [let '(_, _) := splitN ?a ?b in _] => destruct (splitN a b)
+         | |- context [if ?b then _ else _] => destruct b eqn:?
+         end.
+
+Lemma step_pc_returns s c :
+  let '(s', _, e) := step_pc s c in returns_ok (mkOStep (pc_code c) e (snap_of s')) = true.
+Proof.
+  destruct c; cbn [step_pc]; unfold after_app, after_drop, do_take, do_take_all;
+    try (split_ifs; reflexivity).
+  - (* PGSel *) destruct (canc s) eqn:C; [unfold returns_ok; destruct (must_return _); reflexivity|].
+    unfold returns_ok, must_return; cbn [os_pt os_sn pc_code snap_of sn_canc N.eqb Pos.eqb]. rewrite C. reflexivity.
+  - (* PGPoll *) destruct (is_nil (sdt s)) eqn:N; cbn [negb];
+      [|unfold returns_ok; destruct (must_return _); reflexivity].
+    destruct (closed s) eqn:D; [unfold returns_ok; destruct (must_return _); reflexivity|].
+    unfold returns_ok, must_return; cbn [os_pt os_sn pc_code snap_of sn_dt sn_deps N.eqb Pos.eqb].
+    unfold closed in D. rewrite N, D. reflexivity.
+Qed.
+
+Lemma step_thread_returns s t :
+  let '(s', _, e) := step_thread s t in returns_ok (mkOStep (pc_code (snd t)) e (snap_of s')) = true.
+Proof.
+  destruct t as [prog c]. unfold step_thread. cbn [snd].
+  destruct c; try (pose proof (step_pc_returns s) as G;
+    match goal with |- context [step_pc s ?c] => specialize (G c); destruct (step_pc s c) as [[s' c'] e]; exact G end).
+  destruct prog as [|o r]; [reflexivity|]. destruct (begin_op o). reflexivity.
+Qed.
+
+Lemma exec_returns_ok sched : forall y os yf,
+  exec y sched = (os, yf) -> forallb returns_ok os = true.
+Proof.
+  induction sched as [|i rest IH]; intros y os yf E; cbn [exec] in E.
+  - inversion E; reflexivity.
+  - destruct (sys_step y i) as [y' o] eqn:S. destruct (exec y' rest) as [os' yf'] eqn:E'.
+    inversion E; subst. clear E. cbn [forallb]. rewrite (IH _ _ _ E'), andb_true_r.
+    unfold sys_step in S. destruct (nth_thread i (thr y)) as [t|].
+    + pose proof (step_thread_returns (sh y) t) as G.
+      destruct (step_thread (sh y) t) as [[s' t'] e]. inversion S; subst. exact G.
+    + inversion S; subst. reflexivity.
 Qed.
 
 (* headline: the model meets the predicate evaluated on the implementation *)
@@ -160,7 +205,9 @@ Lemma model_meets_spec max progs sched :
 Proof.
   cbn [spec_ok]. unfold spec_ctl, run_ctl.
   destruct (exec (init_sys max progs) sched) as [os yf] eqn:E. cbn [co_steps].
-  exact (exec_dt_ok _ _ _ _ E (init_wf max progs)).
+  apply andb_true_iff; split.
+  - exact (exec_dt_ok _ _ _ _ E (init_wf max progs)).
+  - exact (exec_returns_ok _ _ _ _ E).
 Qed.
 
 (* write-once: once a type is set no schedule changes it *)
